@@ -610,3 +610,213 @@ def normalize(api, t, v):
 
 def show(v):
     return repr(v)[:400]
+
+
+# ---------------------------------------------------------------------------
+# validity of *Python objects* for a type (C08): True / False / None (unspecified)
+
+import re as _re
+
+
+class Tz(datetime.tzinfo):
+    def __init__(self, minutes):
+        self.m = minutes
+
+    def utcoffset(self, d):
+        return datetime.timedelta(minutes=self.m)
+
+    def dst(self, d):
+        return datetime.timedelta(0)
+
+    def tzname(self, d):
+        return 'tz%d' % self.m
+
+
+def ref_valid(pkg, api, t, obj):
+    if isinstance(t, dt.Alias):
+        return ref_valid(pkg, api, t.data_type, obj)
+    if isinstance(t, dt.Nullable):
+        return True if obj is None else ref_valid(pkg, api, t.data_type, obj)
+    if isinstance(t, (dt.Int32, dt.Int64, dt.UInt32, dt.UInt64)):
+        if isinstance(obj, bool):
+            return None
+        if not isinstance(obj, int):
+            return False
+        lo, hi = int_bounds(t)
+        return lo <= obj <= hi
+    if isinstance(t, (dt.Float32, dt.Float64)):
+        if isinstance(obj, bool):
+            return None
+        if not isinstance(obj, (int, float)):
+            return False
+        try:
+            f = float(obj)
+        except OverflowError:
+            return False
+        if math.isnan(f) or math.isinf(f):
+            return False
+        lo, hi = float_bounds(t)
+        if isinstance(t, dt.Float32) and F32 < abs(f) <= 3.4028235e38:
+            return None          # between the bound stone uses and the true IEEE single maximum
+        return (lo is None or f >= lo) and (hi is None or f <= hi)
+    if isinstance(t, dt.Boolean):
+        return isinstance(obj, bool)
+    if isinstance(t, dt.String):
+        if not isinstance(obj, str):
+            return False
+        if t.min_length is not None and len(obj) < t.min_length:
+            return False
+        if t.max_length is not None and len(obj) > t.max_length:
+            return False
+        if t.pattern is not None and _re.fullmatch(t.pattern, obj) is None:
+            return False
+        return True
+    if isinstance(t, dt.Bytes):
+        if isinstance(obj, bytes):
+            return True
+        if isinstance(obj, (bytearray, memoryview)):
+            return None
+        return False
+    if isinstance(t, dt.Timestamp):
+        if not isinstance(obj, datetime.datetime):
+            return False
+        if obj.tzinfo is None:
+            return True
+        return obj.tzinfo.utcoffset(obj) == datetime.timedelta(0)
+    if isinstance(t, dt.Void):
+        return obj is None
+    if isinstance(t, dt.List):
+        if not isinstance(obj, (list, tuple)):
+            return False
+        if t.min_items is not None and len(obj) < t.min_items:
+            return False
+        if t.max_items is not None and len(obj) > t.max_items:
+            return False
+        return _all3(ref_valid(pkg, api, t.data_type, x) for x in obj)
+    if isinstance(t, dt.Map):
+        if not isinstance(obj, dict):
+            return False
+        return _all3([ref_valid(pkg, api, t.key_data_type, k) for k in obj] + [ref_valid(pkg, api, t.value_data_type, x) for x in obj.values()])
+    if isinstance(t, dt.Struct):
+        return isinstance(obj, py_class(pkg, t.namespace.name, t.name))
+    if isinstance(t, dt.Union):
+        cls = py_class(pkg, t.namespace.name, t.name)
+        if type(obj) is cls:
+            return True
+        # a parent union's value is allowed where a child union is expected
+        cur = t.parent_type
+        while cur is not None:
+            if type(obj) is py_class(pkg, cur.namespace.name, cur.name):
+                return True
+            cur = cur.parent_type
+        return False
+    raise TypeError(t)
+
+
+def _all3(it):
+    res = True
+    for x in it:
+        if x is False:
+            return False
+        if x is None:
+            res = None
+    return res
+
+
+def probes_for(pkg, api, t, depth=0):
+    """(label, python object) probes around the boundaries of t: valid boundary values, one-step-invalid values and one
+    value of every wrong Python type."""
+    out = []
+    ut = unalias(t)
+    wrong = [('none', None), ('bool', True), ('int', 7), ('float', 1.5), ('nan', float('nan')), ('inf', float('inf')),
+             ('huge', 10**400), ('str', 'abc'), ('empty-str', ''), ('bytes', b'ab'), ('list', [1]), ('tuple', (1,)), ('dict', {'k': 1}),
+             ('datetime', datetime.datetime(2000, 1, 1)), ('datetime-utc', datetime.datetime(2000, 1, 1, tzinfo=Tz(0))),
+             ('datetime-tz', datetime.datetime(2000, 1, 1, tzinfo=Tz(60))),
+             ('unrelated', py_class(pkg, 'nb', 'Foreign')(x=1)), ('object', object())]
+    if isinstance(ut, dt.Nullable):
+        return [('none', None)] + probes_for(pkg, api, ut.data_type, depth)
+    for v in ref_values(t, depth=1 if depth else 0):
+        try:
+            out.append(('valid:' + show(v)[:40], instantiate(pkg, api, t, v)))
+        except Exception:
+            pass
+    if isinstance(ut, (dt.Int32, dt.Int64, dt.UInt32, dt.UInt64)):
+        lo, hi = int_bounds(ut)
+        tlo, thi = INT_RANGE[type(ut).__name__]
+        for x in {lo - 1, lo, lo + 1, hi - 1, hi, hi + 1, tlo - 1, tlo, thi, thi + 1, 0, -1, 1}:
+            out.append(('int:%d' % x, x))
+        out.append(('float-integral', 1.0))
+    elif isinstance(ut, (dt.Float32, dt.Float64)):
+        lo, hi = float_bounds(ut)
+        for b in (lo, hi):
+            if b is not None:
+                for x in (b, math.nextafter(b, math.inf), math.nextafter(b, -math.inf), b - 1.0, b + 1.0):
+                    out.append(('float:%r' % x, x))
+        for x in (0.0, -0.0, 2, -3, 3.5e38, -3.5e38, 1e308):
+            out.append(('float:%r' % x, x))
+    elif isinstance(ut, dt.String):
+        for n in {0, 1, (ut.min_length or 0) - 1, ut.min_length or 0, ut.max_length or 3, (ut.max_length or 3) + 1}:
+            if n >= 0:
+                out.append(('len:%d' % n, 'a' * n))
+        if ut.pattern is not None:
+            for s in PATTERN_OK.get(ut.pattern, []) + PATTERN_BAD.get(ut.pattern, []):
+                out.append(('pattern:%r' % s, s))
+            out.append(('pattern-newline', PATTERN_OK[ut.pattern][0] + '\n'))
+    elif isinstance(ut, dt.List):
+        inner = ut.data_type
+        ivals = [instantiate(pkg, api, inner, v) for v in ref_values(inner, 1)[:2]]
+        iv = [x for x in ivals if x is not None] or ivals
+        for n in {0, 1, 2, 3, (ut.min_items or 0) - 1, ut.min_items or 0, ut.max_items or 2, (ut.max_items or 2) + 1}:
+            if n >= 0 and iv:
+                out.append(('items:%d' % n, [iv[i % len(iv)] for i in range(n)]))
+                out.append(('items-tuple:%d' % n, tuple(iv[i % len(iv)] for i in range(n))))
+        if depth < 2:
+            for lab, bad in probes_for(pkg, api, inner, depth + 1):
+                if not lab.startswith('valid:'):
+                    out.append(('item<-' + lab, [bad]))
+                    if iv:
+                        out.append(('second-item<-' + lab, [iv[0], bad]))
+    elif isinstance(ut, dt.Map):
+        inner = ut.value_data_type
+        ivals = [instantiate(pkg, api, inner, v) for v in ref_values(inner, 1)[:1]]
+        if ivals:
+            out.append(('key-int', {1: ivals[0]}))
+            out.append(('key-none', {None: ivals[0]}))
+            out.append(('key-bytes', {b'k': ivals[0]}))
+        if depth < 2:
+            for lab, bad in probes_for(pkg, api, inner, depth + 1):
+                if not lab.startswith('valid:'):
+                    out.append(('value<-' + lab, {'k': bad}))
+    elif isinstance(ut, dt.Struct):
+        # subclass instances are allowed, instances of the parent are not
+        for nsn, ns in api.namespaces.items():
+            for d in ns.data_types:
+                if isinstance(d, dt.Struct) and d is not ut and not d.has_enumerated_subtypes() and d.name not in ('Holder', 'PrimHolder'):
+                    related = False
+                    cur = d
+                    while cur is not None:
+                        if cur is ut:
+                            related = True
+                        cur = cur.parent_type
+                    cur = ut
+                    while cur is not None:
+                        if cur is d:
+                            related = True
+                        cur = cur.parent_type
+                    if related:
+                        try:
+                            out.append(('related-struct:' + d.name, instantiate(pkg, api, d, ref_values(d, 1)[-1])))
+                        except Exception:
+                            pass
+    elif isinstance(ut, dt.Union):
+        for nsn, ns in api.namespaces.items():
+            for d in ns.data_types:
+                if isinstance(d, dt.Union) and d is not ut and d.name not in ('HolderU', 'PrimHolderU'):
+                    vals = [v for v in ref_values(d, 2)]
+                    if vals:
+                        try:
+                            out.append(('other-union:' + d.name, instantiate(pkg, api, d, vals[0])))
+                        except Exception:
+                            pass
+    out.extend(('wrong:' + k, v) for k, v in wrong)
+    return out
